@@ -13,6 +13,8 @@ PATTERNS = [
     r"celeritas::detail::SurfaceTransformer::operator\(\)$",
     r"celeritas::detail::ProcessSecondariesExecutor::operator\(\)$",
     r"celeritas::detail::LocateAliveExecutor::operator\(\)",
+    r"celeritas::(Transformation|Translation)::(Transformation|Translation|data)$",
+    r"celeritas::detail::import_transform$",
 ]
 
 
